@@ -4,8 +4,8 @@ import json, os
 HERE = os.path.dirname(os.path.dirname(os.path.abspath(__file__)))
 BASE_NOTE = ("Trusted: Coq 8.16.1 kernel incl. vm_compute (no native_compute); no axioms (every Print Assumptions must say "
              "'Closed under the global context'); the Gallina model is tied to /repo on every invocation by (G) definitions regenerated from the "
-             "current source text by eight fail-closed translators (index arithmetic, float formulas as rationals, the numba kernels compiled to "
-             "folds, the vectorised gridmatching formulas, the full_match loop and _tumble, the per-frame UDF glue, the dtype decisions, the sparse stacks) with bridge lemmas re-proved against them, and by (K) the "
+             "current source text by nine fail-closed translators (index arithmetic and loop structure of the crop functions, float formulas as rationals, the numba kernels compiled to "
+             "folds, the upsample flag/factor through kernels and wrappers, the vectorised gridmatching formulas and defaults, the full_match loop, _tumble and _do_match, the per-frame UDF glue, the dtype decisions, the sparse stacks) with bridge lemmas re-proved against them, and by (K) the "
              "correspondence run (model under vm_compute vs implementation on the same inputs); harness (generators, exact float->Z/Q "
              "conversion, parser, comparator tolerances, translators); numpy FFT/log/sqrt/solve/lstsq are modelled by their mathematical meaning, not verified. ")
 CHECKS = {}
@@ -16,7 +16,7 @@ add('C13',
     "Coq theorems for ALL frame shapes, crop sizes, buffer shapes, peaks, pixels and previous buffer contents: the per-pixel kernel and the "
     "slice arithmetic (CPython slice normalisation modelled) both produce exactly the zero-padded window, never read/write out of bounds, "
     "never raise a shape error, and agree. Model tied to the code by running both real back-ends and the model on the same guard-padded inputs.",
-    BASE_NOTE + "Sparse/CuPy inputs of the slicing back-end are not run (dense numpy only).",
+    BASE_NOTE + "Sparse frames (sparse.COO / GCXS, scipy.sparse) are run through the slicing back-end by the oracle only; CuPy is not available.",
     "Coq proof (lia case analysis over slice normalisation) + vm_compute correspondence + exhaustive oracle box", "5/C13")
 
 CORR_NOTE = BASE_NOTE + ("The FFT product is modelled as exact cyclic convolution and the logarithm as a harness-supplied table over the exact "
